@@ -483,7 +483,7 @@ func errFeature(e string) string {
 func init() {
 	checks["c17"] = func(id string) int {
 		r := newRun(id, "exploration")
-		r.Rule = "seeded random inbox activities whose to/cc/audience mix owned collections (Collection, OrderedCollection, page, empty), a foreign collection, owned non-collections, actors and Public (as IRIs or embedded) and addressees without an id; reply chains of depth 0..5 through embedded values and dereferenced IRIs (some unreachable or of unknown type, some anonymous embedded siblings) with an owned id at a random level or nowhere; depth limit 1..4; filter all / first / last / none / equal IRIs in other values, reordered; each activity delivered 1..3 times to one or two local inboxes, sometimes already stored; the forwarding BatchDeliver (presence, recipients, payload) and the activity's Create count are compared with a model of the three conditions; Follows answered by the library itself (Accept / Reject) and forwarded afterwards; owned addressees the Database has nothing stored for; a Delete of the activity between two deliveries; every history that must forward run once more with the first recording of the activity failing; non-trivial = history in which the model expects a forward; distinct by scenario"
+		r.Rule = "seeded random inbox activities whose to/cc/audience mix owned collections (Collection, OrderedCollection, page, empty), a foreign collection, owned non-collections, actors and Public (as IRIs or embedded) and addressees without an id; reply chains of depth 0..5 through embedded values and dereferenced IRIs (some unreachable or of unknown type, some anonymous embedded siblings) with an owned id at a random level or nowhere; depth limit 1..4; filter all / first / last / none / equal IRIs in other values, reordered; each activity delivered 1..3 times to one or two local inboxes, sometimes already stored; the forwarding BatchDeliver (presence, recipients, payload) and the activity's Create count are compared with a model of the three conditions; Follows answered by the library itself (Accept / Reject) and forwarded afterwards; owned addressees the Database has nothing stored for; a Delete of the activity between two deliveries; every history that must forward run once more with the first recording of the activity failing, and up to six times more with a later step of the first delivery failing (Lock / Owns / Get / filter / transport) and the delivery repeated at the end; non-trivial = history in which the model expects a forward; distinct by scenario"
 		r.Assumptions = []string{"recipients are judged as the member ids handed to the transport, as a set", "owned to/cc/audience values are always stored"}
 		judge := func(cs c17Case) {
 			sc := cs.Sc
